@@ -55,12 +55,15 @@ BUILD = [
     b"\x88",                  # True
     b"(K\x01K\x02K\x01K\x03d",  # dict via DICT with a duplicate key: the VM keeps the later value
     b"}(K\x01K\x02K\x01K\x03u",  # dict via SETITEMS with a duplicate key
+    b"}\x8c\x04fromK\x01s",      # dict whose key is a Python keyword (kwargs of NEWOBJ_EX)
+    b"}\x8c\x02\xc2\xb5K\x01s",   # dict whose key is an identifier that NFKC-normalises to another one (U+00B5)
+    b"czqv_m\nC\nK\x01\x85",     # TWO values: class + 1-tuple (operands for NEWOBJ_EX with kwargs / NEWOBJ / REDUCE)
 ]
 NB = len(BUILD)
-MEMO = [b"", b"\x94", b"q\x05"]
+MEMO = [b"", b"\x94", b"q\x05", b"q\x01"]      # none / MEMOIZE / BINPUT 5 / BINPUT 1 (collides with a later MEMOIZE at len(memo) == 1)
 OPS = [b"0", b"2", b"a", b"e", b"s", b"u", b"\x90", b"t", b"\x85", b"\x86", b"R", b"b", b"o", b"\x81", b"1", b"l", b"d", b"\x91",
        b"h\x00", b"h\x05", b"\x94", b"N", b"Q", b"\x92", b")", b"\x93", b"izqv_m\nC\n", b"}", b"(", b"q\x05"]
-OBS = [b".", b"0.", b"N.", b"h\x00.", b"h\x05.", b"0h\x00.", b"}b.", b"]\x94h\x00\x86.", b"Nb."]
+OBS = [b".", b"0.", b"N.", b"h\x00.", b"h\x05.", b"0h\x00.", b"}b.", b"]\x94h\x00\x86.", b"Nb.", b"0h\x01.", b"0h\x01)R."]
 
 
 def both(h, hm, hl, prog):
@@ -154,7 +157,7 @@ def make_lock(op, oracle):
     enumerated natively inside each path (a path = one (base, b1, b2) cell of the partition)"""
     def lem(h: int, b1: int, b2: int) -> bool:
         """
-        pre: 0 <= h <= 1 and 0 <= b1 < 24 and 0 <= b2 < 24
+        pre: 0 <= h <= 1 and 0 <= b1 < 32 and 0 <= b2 < 32
         post: _
         """
         if QUICK[0] and h != 0:
@@ -174,11 +177,12 @@ def make_lock(op, oracle):
 
 def _cell(op, oracle, h, b1, b2):
     """every (memo1, memo2, observer) program of the cell; returns None or a description of the first failure"""
-    m1s = (0,) if QUICK[0] else (0, 1, 2)
-    obs = (0, 1, 2, 4, 8) if QUICK[0] else range(len(OBS))
+    m1s = (0, 3) if QUICK[0] else (0, 1, 2, 3)
+    m2s = (0, 1, 3) if QUICK[0] else (0, 1, 2, 3)
+    obs = (0, 1, 2, 8, 10) if QUICK[0] else range(len(OBS))
     bad = ("EVENTS",) if oracle == "C03" else ("VALUE", "EXEC")
     for m1 in m1s:
-        for m2 in (0, 1, 2):
+        for m2 in m2s:
             for ob in obs:
                 prog = b"N" * h + BUILD[b1] + MEMO[m1] + BUILD[b2] + MEMO[m2] + OPS[op] + OBS[ob]
                 verdict, detail = _plain(prog)
@@ -199,12 +203,12 @@ def make_hidden(op, oracle):
     def lem(h: int, hm: int, hl: int, b1: int, m1: int, b2: int, m2: int, ob: int) -> bool:
         """
         pre: h >= 0 and hm >= 0 and hl >= 0
-        pre: 0 <= b1 < 9 and m1 == 0 and 0 <= b2 < 9 and 0 <= m2 < 3 and 0 <= ob < 3
+        pre: 0 <= b1 < 9 and m1 == 0 and 0 <= b2 < 9 and 0 <= m2 < 4 and 0 <= ob < 3
         post: _
         """
         if QUICK[0] and ob == 2:
             return True
-        b1, b2, m2, ob = SMALL_B[pin(b1, 0, 8)], SMALL_B[pin(b2, 0, 8)], pin(m2, 0, 2), pin(ob, 0, 2)
+        b1, b2, m2, ob = SMALL_B[pin(b1, 0, 8)], SMALL_B[pin(b2, 0, 8)], pin(m2, 0, 3), pin(ob, 0, 2)
         key = classify(b1, b2, op)
         if _gate(oracle, key):
             return True
@@ -331,7 +335,7 @@ def lemmas(tier, oracle=None):
     for op in range(len(OPS)):
         L.append(Lemma("lock_%s_%02d" % (oracle, op), make_lock(op, oracle), timeout=400 if q else 3000, replay=make_replay(op, oracle),
                        dry=[{"h": 0, "b1": 10, "b2": 0}, {"h": 0, "b1": 3, "b2": 0}],
-                       doc={"F": ["solver-partitioned: base depth 0/1 x builder kinds (%d x %d)" % (NB, NB), "enumerated inside each cell: memo choice per slot (3 x 3) x observer (8)", "opcode under test %r" % OPS[op]],
+                       doc={"F": ["solver-partitioned: base depth 0/1 x builder kinds (%d x %d)" % (NB, NB), "enumerated inside each cell: memo choice per slot (none / MEMOIZE / BINPUT 5 / BINPUT 1) x observer (%d)" % len(OBS), "opcode under test %r" % OPS[op]],
                             "oracle": "event sub-multiset" if oracle == "C03" else "canonical value equality + decompiled source executes",
                             "bound": "two builder slots, one opcode under test" + ("; quick: no memo on slot 1, 4 observers, empty base" if q else "")}))
         L.append(Lemma("hidden_%s_%02d" % (oracle, op), make_hidden(op, oracle), timeout=300 if q else 1800, replay=make_replay_hidden(op, oracle),
